@@ -95,6 +95,13 @@ fn svo_tie(a: &StateVector, b: &StateVector, md: &mut Model, fails: &mut Vec<ser
     let mut merged = a.clone(); merged.merge(b.clone());
     let mm = md.ask(&format!("SVO merge {} {}", svo_string(a), svo_string(b)));
     if mm != format!("ok {}", svo_sorted(&merged)) { rep.disagree(json!({"kind": "StateVector::merge transcription", "model": mm, "impl": svo_sorted(&merged), "a": svo_string(a), "b": svo_string(b)})); }
+    // set_max / set_min of one entry of b (a client a may not know) on a
+    if let Some((c, k)) = b.iter().next() {
+        let (mut up, mut down) = (a.clone(), a.clone()); up.set_max(*c, *k); down.set_min(*c, *k);
+        let mu = md.ask(&format!("SVO setmax {} {:x} {:x}", svo_string(a), c.get(), k)); let ml = md.ask(&format!("SVO setmin {} {:x} {:x}", svo_string(a), c.get(), k));
+        rep.count("c06_set_max_set_min_compared_with_the_transcription");
+        if mu != format!("ok {}", svo_sorted(&up)) || ml != format!("ok {}", svo_sorted(&down)) { rep.disagree(json!({"kind": "StateVector::set_max / set_min transcription", "model": [mu, ml], "impl": [svo_sorted(&up), svo_sorted(&down)], "a": svo_string(a), "client": c.get(), "clock": k})); }
+    }
     // the oracle of the property itself, on the implementation: pointwise order by get() = the verdict; the merge dominates both
     let clients: std::collections::BTreeSet<u64> = a.iter().chain(b.iter()).map(|(c, _)| c.get()).collect();
     let le = clients.iter().all(|c| a.get(&yrs::block::ClientID::new(*c)) <= b.get(&yrs::block::ClientID::new(*c)));
